@@ -205,11 +205,13 @@ pub struct Src<T> {
     /// which (honest) `size_hint` the source reports - an environment answer, see `HINTS`
     pub hint: u8,
 }
-/// Number of size_hint behaviours of `Src`. All are honest (lower <= remaining <= upper):
+/// Number of size_hint behaviours of `Src`. Kinds 0-7 are honest (lower <= remaining <= upper):
 /// 0 `(0, None)`, 1 exact, 2 `(remaining, None)`, 3 `(0, Some(remaining))`,
-/// 4.. `(0, Some(usize::MAX - j))` for j = 0, 1, 2, 3 (huge but true upper bounds, as adaptors such
-/// as `take_while` over an unbounded range report them).
-pub const HINTS: u8 = 8;
+/// 4-7 `(0, Some(usize::MAX - j))` for j = 0, 1, 2, 3 (huge but true upper bounds, as adaptors such
+/// as `take_while` over an unbounded range report them). Kinds 8-10 LIE - `size_hint` is advisory, a
+/// safe iterator may report anything, and neither memory safety nor the panic-on-overflow contract may
+/// depend on it: 8 `(0, Some(0))`, 9 `(0, Some(remaining - 1))`, 10 `(remaining + 1, Some(remaining + 1))`.
+pub const HINTS: u8 = 11;
 impl<T> Src<T> {
     pub fn new(items: Vec<T>) -> (Self, std::rc::Rc<std::cell::Cell<(u32, bool)>>) {
         Self::with_hint(items, 0)
@@ -236,6 +238,9 @@ impl<T> Iterator for Src<T> {
             1 => (rem, Some(rem)),
             2 => (rem, None),
             3 => (0, Some(rem)),
+            8 => (0, Some(0)),
+            9 => (0, Some(rem.saturating_sub(1))),
+            10 => (rem + 1, Some(rem + 1)),
             j => (0, Some(usize::MAX - (j as usize - 4))),
         }
     }
